@@ -698,6 +698,16 @@ class Node:
         limit = app.affinity.limits[self.level]
         return count < limit
 
+    def check_app_affinity_limit_up(self, app):
+        """Check app affinity limits on all ancestors of the node.
+        """
+        node = self.parent
+        while node:
+            if not node.check_app_affinity_limit(app):
+                return False
+            node = node.parent
+        return True
+
     def put(self, _app):
         """Abstract method, should never be called.
         """
@@ -1683,7 +1693,8 @@ class Cell(Bucket):
 
                 evicted_from, app_expiry = evicted[app]
                 del evicted[app]
-                if evicted_from.restore(app, app_expiry):
+                if (evicted_from.check_app_affinity_limit_up(app) and
+                        evicted_from.restore(app, app_expiry)):
                     app.evicted = False
                     continue
 
@@ -1722,9 +1733,10 @@ class Cell(Bucket):
                                             evicted_app.placement_expiry)
                     evicted_app_server.remove(evicted_app.name)
 
-                    # TODO: we need to check affinity limit constraints on
-                    #       each level, all the way to the top.
-                    if evicted_app_server.put(app):
+                    # Affinity limit constraints are checked on each level,
+                    # all the way to the top (server.put checks the server).
+                    if (evicted_app_server.check_app_affinity_limit_up(app) and
+                            evicted_app_server.put(app)):
                         break
 
             # Placement failed.
